@@ -14,10 +14,11 @@ from pony.orm import Database, Required, Optional, Set, PrimaryKey, db_session, 
 from pony.orm import core
 import ponyutil
 from engines import sess_shared as S
-from engines.c10 import R_SET_AFTER_REMOVE
+from engines.c10 import R_SET_AFTER_REMOVE, R_SYMM_OWN_OWNER
 
 # regression inputs: defects repaired in /repo that this property is about
-REGRESSIONS = [('set-after-unflushed-remove (commit fc04eec)', R_SET_AFTER_REMOVE)]
+REGRESSIONS = [('set-after-unflushed-remove (commit fc04eec)', R_SET_AFTER_REMOVE),
+               ('symmetric-collection-own-owner (commit e8061ac)', R_SYMM_OWN_OWNER)]
 
 
 def regressions(ctx):
